@@ -3,6 +3,8 @@
 use crate::*;
 use remoc::chmux::{self, ChMux, ChMuxError, Client, Listener};
 use serde_json::json;
+use std::future::Future;
+use std::pin::Pin;
 use std::time::Duration;
 use tokio::task::JoinHandle;
 
@@ -250,8 +252,33 @@ where
     let (a_sink, b_stream) = ab.halves();
     let (b_sink, a_stream) = ba.halves();
     let pump = spawn_pump(vec![ab.clone(), ba.clone()], seed);
-    let fa = Labeled::new(label_base + 1, remoc::Connect::framed::<_, _, AS, AR, remoc::codec::Default>(a.to_cfg(), a_sink, a_stream));
-    let fb = Labeled::new(label_base + 2, remoc::Connect::framed::<_, _, BS, BR, remoc::codec::Default>(b.to_cfg(), b_sink, b_stream));
+    // transport: frames handed over as they are (Connect::framed) or a byte stream with length-prefixed frames
+    // (Connect::io) delivered in seeded pieces; VERIF_STREAM=0|1 forces one of them, otherwise the seed decides
+    let stream = match std::env::var("VERIF_STREAM").ok().as_deref() {
+        Some("0") => false,
+        Some("1") => true,
+        _ => seed % 3 == 0,
+    };
+    tr(json!({"ev": "transport", "stream": stream, "label": label_base}));
+    type Boxed<'a, S, R> = Pin<Box<dyn Future<Output = Result<(remoc::Connect<'a, io::Error, io::Error>, base::Sender<S>, base::Receiver<R>), remoc::ConnectError<io::Error, io::Error>>> + Send + 'a>>;
+    let (fa, fb): (Boxed<AS, AR>, Boxed<BS, BR>) = if stream {
+        let (acfg, bcfg) = (a.to_cfg(), b.to_cfg());
+        let a_out = ByteSink::new(a_sink, bcfg.max_frame_length() as usize);
+        let b_out = ByteSink::new(b_sink, acfg.max_frame_length() as usize);
+        let a_in = ByteStream::new(a_stream, seed * 2 + 1);
+        let b_in = ByteStream::new(b_stream, seed * 2 + 2);
+        (
+            Box::pin(remoc::Connect::io::<_, _, AS, AR, remoc::codec::Default>(acfg, a_in, a_out)),
+            Box::pin(remoc::Connect::io::<_, _, BS, BR, remoc::codec::Default>(bcfg, b_in, b_out)),
+        )
+    } else {
+        (
+            Box::pin(remoc::Connect::framed::<_, _, AS, AR, remoc::codec::Default>(a.to_cfg(), a_sink, a_stream)),
+            Box::pin(remoc::Connect::framed::<_, _, BS, BR, remoc::codec::Default>(b.to_cfg(), b_sink, b_stream)),
+        )
+    };
+    let fa = Labeled::new(label_base + 1, fa);
+    let fb = Labeled::new(label_base + 2, fb);
     let (ra, rb) = tokio::join!(fa, fb);
     let (ca, a_tx, a_rx) = ra.ok().expect("connect A");
     let (cb, b_tx, b_rx) = rb.ok().expect("connect B");
